@@ -219,12 +219,24 @@ def fresh_repo(U, user, be, concurrent=2, cache_directory=None):
     return r
 
 
-def run_case(encrypted, caller, owners, refs, orphans, op, delays=None):
+def run_case(encrypted, caller, owners, refs, orphans, op, delays=None, prev=None):
     U = users(encrypted)
     rt.determinism(7)
     objs, snaps = build_state(U, owners, refs, orphans)
     be = rt.MemBackend(objs, delays=delays)
-    repo = fresh_repo(U, caller, be)
+    if prev is None:
+        repo = fresh_repo(U, caller, be)
+    else:
+        # a long-lived client object that was used by `prev` (listed the snapshots) and is then unlocked again with the
+        # caller's key, as library users and the test-suite do
+        import contextlib
+        import io
+        repo = fresh_repo(U, prev, be)
+        with contextlib.redirect_stdout(io.StringIO()):
+            _run(repo.list_snapshots())
+        _run(repo.unlock(password=U.pw[caller], key=U.keys[caller]))
+        if be.objs != objs:
+            return False, 'listing changed the store'
     before = dict(objs)
     raised = None
     try:
@@ -367,8 +379,10 @@ def g_quick(k: int) -> bool:
     with NoTracing():
         owners = [OWNERS[oc % 3], OWNERS[oc // 3]]
         refs = _refs_from_bits(bits, 2, 2)
-        ok, msg = run_case(True, 'A', owners, refs, ORPHANS[orph], OPS[opi])
-        tick('g_quick', [owners, refs, orph, OPS[opi]])
+        # every other vector: the client object was used by another user before (B shared / C independent / A itself)
+        prev = [None, 'C', None, 'B', None, 'A'][(oc + bits + orph + opi) % 6]
+        ok, msg = run_case(True, 'A', owners, refs, ORPHANS[orph], OPS[opi], prev=prev)
+        tick('g_quick', [owners, refs, orph, OPS[opi], prev])
         if not ok:
             _say(owners, refs, ORPHANS[orph], OPS[opi], msg)
         return ok
